@@ -48,7 +48,8 @@ def gen_case(rng, i):
     if join:
         q['join'] = g.gen_join()
     if family == 'update':
-        q = g.gen_update({'where'} if rng.random() < 0.5 else set())
+        # one UPDATE in five also assigns to the column just past the table's width: that must fail, not widen the record under an unchanged header
+        q = g.gen_update(({'where'} if rng.random() < 0.5 else set()) | ({'beyond'} if rng.random() < 0.2 else set()))
         return common.case_json(q, T, extra={'init': True})
     if family == 'except':
         q['except'] = [['field', 'a', j, g.spelling('a', j)] for j in sorted(rng.sample(range(wa), min(wa, rng.choice([1, 1, 2]))))]
